@@ -7,6 +7,7 @@
        against the real code.
    Definitions only; proofs are in Proofs/TDigest*.v. *)
 From Coq Require Import List Bool Arith QArith Qabs.
+From IB Require Import Combiners.Lawful.
 Import ListNotations.
 
 (* ------------------------------------------------------------------ arithmetic interface
@@ -221,6 +222,27 @@ Section Model.
   (* ApproxQuantiles / ApproxMedian :: build_from_group *)
   Definition aq_build (c : T) (vs : list T) : digest T :=
     td_compress (fold_left td_add vs (td_new c)).
+
+  (* the f64 literal n/100 (a correctly rounded decimal literal = the correctly rounded quotient
+     of the two exactly representable integers) *)
+  Definition a_pct (n : nat) : T := a_of_nat A n /! a_of_nat A 100.
+
+  (* the q lists of the convenience constructors ApproxQuantiles::five_number_summary,
+     ::percentiles, ::median *)
+  Definition qs_five_number : list T := [a_zero A; a_pct 25; a_half A; a_pct 75; a_one A].
+  Definition qs_percentiles : list T :=
+    [a_pct 1; a_pct 5; a_pct 10; a_pct 25; a_pct 50; a_pct 75; a_pct 90; a_pct 95; a_pct 99].
+  Definition qs_median : list T := [a_half A].
+  (* ApproxMedian::default(): compression 100 *)
+  Definition am_default_compression : T := a_of_nat A 100.
+
+  (* ApproxQuantiles::new(qs, c) and ApproxMedian::new(c) as combiners (CombineFn + LiftableCombiner) *)
+  Definition aq_combiner (qs : list T) (c : T) : combiner T (digest T) (list T) :=
+    {| c_create := td_new c; c_add := td_add; c_merge := td_merge;
+       c_finish := aq_finish qs; c_build := aq_build c |}.
+  Definition am_combiner (c : T) : combiner T (digest T) T :=
+    {| c_create := td_new c; c_add := td_add; c_merge := td_merge;
+       c_finish := am_finish; c_build := aq_build c |}.
 
   Fixpoint run (p : prog T) : digest T :=
     match p with
